@@ -217,6 +217,7 @@ class RF24:
 
     def open_tx_pipe(self, address: Union[bytes, bytearray]) -> None:
         """Open a data pipe for TX transmissions."""
+        address = address[:5]
         if self._aa & 1:
             for i, val in enumerate(address):
                 self._pipes[0][i] = val  # type: ignore[assignment, index]
@@ -244,6 +245,7 @@ class RF24:
             raise IndexError("pipe number must be in range [0, 5]")
         if not address:
             raise ValueError("address length cannot be 0")
+        address = address[:5]
         if pipe_number < 2:
             if not pipe_number:
                 self._pipe0_read_addr = address
